@@ -6,10 +6,11 @@
 (*   OpenPull(updates-only, name)       CloseStream(which)                 *)
 (* with 1..6 updates and 0..2 streams open at any time.  Values and masks  *)
 (* are indices: the harness maps a value index to one of the 3-4 far-apart *)
-(* well-formed values of the server's resource type (5, 6: a value the     *)
-(* server's business rules are expected to refuse, where the table has     *)
-(* one), and a mask selector k to the top-level field number k mod n of    *)
-(* that type (90: a path naming no field - update masks only).  About a    *)
+(* well-formed values of the server's resource type (1-4, 7, 8; 5, 6: a    *)
+(* value the server's business rules are expected to refuse, where the     *)
+(* table has one), and a mask selector k to the top-level field number     *)
+(* k mod n of that type (90: a path naming no field - update masks only;   *)
+(* 20..59: one sub-field of a message-typed field - read masks).  About a  *)
 (* quarter of the updates repeat the previous value with no mask           *)
 (* ("identical" change).  The verdict is not taken here: StackTrace.tla    *)
 (* checks what the real servers answered against Stack!Fails.              *)
@@ -23,9 +24,11 @@ R(S) == RandomElement(S)
 Flip(z, pct) == RandomElement(1..100) <= pct
 
 NilM == [nil |-> TRUE, sel |-> <<>>]
+\* 20..59: a sub-field selection (20 + 8*child + field): "field.child" where that field is a message
 ReadMask(z) ==
-  IF Flip(z, 30) THEN NilM
-  ELSE [nil |-> FALSE, sel |-> R({ <<>>, <<R(0..7)>>, <<R(0..7)>>, <<R(0..7), R(0..7)>>, <<R(0..7), R(0..7), R(0..7)>> })]
+  IF Flip(z, 25) THEN NilM
+  ELSE [nil |-> FALSE, sel |-> R({ <<>>, <<R(0..7)>>, <<R(0..7)>>, <<R(0..7), R(0..7)>>, <<R(0..7), R(0..7), R(0..7)>>,
+                                   <<R(20..59)>>, <<R(20..59)>>, <<R(20..59), R(20..59)>>, <<R(0..7), R(20..59)>> })]
 UpdateMask(z) ==
   IF Flip(z, 45) THEN NilM
   ELSE [nil |-> FALSE, sel |-> R({ <<>>, <<R(0..7)>>, <<R(0..7)>>, <<R(0..7), R(0..7)>>, <<R(0..7), R(0..7), R(0..7)>>,
@@ -48,7 +51,7 @@ Build(z, left, open, upd, last, acc) ==
       IN
       CASE k3 = "Update" ->
              LET same == last > 0 /\ Flip(z, 25)
-                 v == IF same THEN last ELSE R({1, 2, 3, 4, 1, 2, 3, 4, 5, 6})
+                 v == IF same THEN last ELSE R({1, 2, 3, 4, 7, 8, 1, 2, 3, 4, 7, 8, 5, 6})
                  o == [Blank EXCEPT !.op = "Update", !.val = v, !.name = R(0..1),
                                     !.mask = IF same THEN NilM ELSE UpdateMask(z)]
              IN Build(z, left - 1, open, upd + 1, v, Append(acc, o))
